@@ -28,6 +28,13 @@ type unit struct {
 	structs []string // struct types to emit as records
 	// string parameters that are only used under len(): abstracted to a length
 	lenOnly map[string]bool
+	// effect calls: function name -> index of the argument `&recv.Field` that names the effect.  Such a call
+	// (e.g. setPath(resolver, &s.MaxBlobSizeBlob, oid, "blob")) is translated to setting a boolean result
+	// `set_<Field>`; all effect flags are returned after the receiver, in order of first appearance.
+	effects map[string]int
+	// lenient: types the translator does not know (pointers to other structs, maps, package types) are opaque:
+	// struct fields and parameters of such types are dropped; they may only occur inside effect calls.
+	lenient bool
 }
 
 var units = []unit{
@@ -37,6 +44,11 @@ var units = []unit{
 		funcs: []string{"TreeSize.addDescendent", "TreeSize.addBlob", "TreeSize.addLink",
 			"TreeSize.addSubmodule", "CommitSize.addParent"},
 		lenOnly: map[string]bool{"filename": true}},
+	{file: "sizes/sizes.go", module: "RecordGen", imports: []string{"CountsGen", "SizesGen"},
+		structs: []string{"TagSize", "HistorySize"},
+		funcs: []string{"HistorySize.recordBlob", "HistorySize.recordTree", "HistorySize.recordCommit",
+			"HistorySize.recordTag", "HistorySize.recordReference"},
+		effects: map[string]int{"setPath": 1}, lenient: true},
 	{file: "git/ref_filter.go", module: "RefFilterGen", structs: []string{"prefixFilter"},
 		funcs: []string{"prefixFilter.Filter"}},
 	{file: "git/gitconfig.go", module: "GitConfigGen", funcs: []string{"configKeyMatchesPrefix"}},
@@ -65,6 +77,7 @@ var (
 	tString  = typ{kind: "string"}
 	tUntyped = typ{kind: "untyped"}
 	tUnit    = typ{kind: "unit"}
+	tOpaque  = typ{kind: "opaque"}
 )
 
 type method struct {
@@ -80,6 +93,7 @@ type structInfo struct {
 	name   string
 	fields []string
 	ftypes []typ
+	wanted bool
 }
 
 type world struct {
@@ -87,6 +101,7 @@ type world struct {
 	methods map[string]*method // "Recv.Name" or "Name"
 	structs map[string]*structInfo
 	named   map[string]typ // named non-struct types
+	lenient bool           // unknown types are opaque instead of fatal
 }
 
 func fail(fset *token.FileSet, n ast.Node, format string, args ...interface{}) {
@@ -116,15 +131,37 @@ func (w *world) typeOfExpr(e ast.Expr) typ {
 		if t, ok := w.named[x.Name]; ok {
 			return t
 		}
-		if _, ok := w.structs[x.Name]; ok {
+		if si, ok := w.structs[x.Name]; ok {
+			if w.lenient && len(si.fields) == 0 && !si.wanted {
+				return tOpaque // a struct of the file that is not translated
+			}
 			return typ{kind: "struct", name: x.Name}
+		}
+		if w.lenient {
+			return tOpaque
 		}
 		fail(w.fset, e, "unknown type %s", x.Name)
 	case *ast.SelectorExpr:
 		// pkg.Type
 		return w.typeOfExpr(x.Sel)
 	case *ast.StarExpr:
+		if w.lenient {
+			// a pointer to a translated struct is only meaningful as a receiver; elsewhere it is opaque
+			if id, ok := x.X.(*ast.Ident); ok {
+				if si, ok := w.structs[id.Name]; ok && (si.wanted || len(si.fields) > 0) {
+					return typ{kind: "struct", name: id.Name}
+				}
+			}
+			return tOpaque
+		}
 		return w.typeOfExpr(x.X)
+	case *ast.MapType, *ast.ArrayType, *ast.InterfaceType, *ast.FuncType:
+		if w.lenient {
+			return tOpaque
+		}
+	}
+	if w.lenient {
+		return tOpaque
 	}
 	fail(w.fset, e, "unsupported type expression %T", e)
 	return typ{}
@@ -198,8 +235,15 @@ func (w *world) fillStructs(f *ast.File, wanted map[string]bool) {
 				continue
 			}
 			si := w.structs[ts.Name.Name]
+			if len(si.fields) > 0 {
+				continue // already filled by an earlier unit of the same file
+			}
+			si.wanted = true
 			for _, fld := range st.Fields.List {
 				ft := w.typeOfExpr(fld.Type)
+				if ft.kind == "opaque" {
+					continue
+				}
 				for _, n := range fld.Names {
 					si.fields = append(si.fields, n.Name)
 					si.ftypes = append(si.ftypes, ft)
@@ -244,6 +288,9 @@ func (w *world) collectMethods(f *ast.File, want func(sel string) bool) []*metho
 		m := &method{recvType: recv, ptrRecv: ptr, name: name, decl: fd}
 		for _, p := range fd.Type.Params.List {
 			t := w.typeOfExpr(p.Type)
+			if t.kind == "opaque" {
+				continue
+			}
 			n := len(p.Names)
 			if n == 0 {
 				n = 1
@@ -280,6 +327,8 @@ type env struct {
 	recv    string // receiver variable name ("" if none)
 	recvT   typ
 	lenOnly map[string]bool
+	effects []string // names of the effect flags (set_<Field>), in order of first appearance
+	tmp     int
 }
 
 func coqName(m *method) string {
@@ -295,6 +344,7 @@ func (e *env) resultTuple(vals []string) string {
 		parts = append(parts, e.recv)
 	}
 	parts = append(parts, vals...)
+	parts = append(parts, e.effects...)
 	if len(parts) == 0 {
 		return "tt"
 	}
@@ -687,6 +737,50 @@ func (e *env) indexExpr(x ast.Expr) string {
 }
 
 // assigned collects the variables (including the receiver) assigned in stmts.
+// effectName: for a call of an effect function, the flag it sets ("" if the call is not an effect call).
+func (e *env) effectName(c *ast.CallExpr) string {
+	id, ok := c.Fun.(*ast.Ident)
+	if !ok || e.u.effects == nil {
+		return ""
+	}
+	idx, ok := e.u.effects[id.Name]
+	if !ok {
+		return ""
+	}
+	if idx >= len(c.Args) {
+		fail(e.w.fset, c, "effect call %s has too few arguments", id.Name)
+	}
+	ue, ok := c.Args[idx].(*ast.UnaryExpr)
+	if !ok || ue.Op != token.AND {
+		fail(e.w.fset, c, "effect call %s: argument %d is not &recv.Field", id.Name, idx)
+	}
+	sel, ok := ue.X.(*ast.SelectorExpr)
+	if !ok {
+		fail(e.w.fset, c, "effect call %s: argument %d is not &recv.Field", id.Name, idx)
+	}
+	if rid, ok := sel.X.(*ast.Ident); !ok || rid.Name != e.recv {
+		fail(e.w.fset, c, "effect call %s: the field does not belong to the receiver", id.Name)
+	}
+	return "set_" + sel.Sel.Name
+}
+
+// rootIsVar: is the innermost identifier of a selector chain a local variable or the receiver?
+func (e *env) rootIsVar(x ast.Expr) bool {
+	for {
+		if s2, ok := x.(*ast.SelectorExpr); ok {
+			x = s2.X
+			continue
+		}
+		break
+	}
+	id, ok := x.(*ast.Ident)
+	if !ok {
+		return false
+	}
+	_, ok = e.vars[id.Name]
+	return ok
+}
+
 func (e *env) assigned(stmts []ast.Stmt, acc map[string]bool) {
 	for _, s := range stmts {
 		switch v := s.(type) {
@@ -705,6 +799,10 @@ func (e *env) assigned(stmts []ast.Stmt, acc map[string]bool) {
 			}
 		case *ast.ExprStmt:
 			if c, ok := v.X.(*ast.CallExpr); ok {
+				if en := e.effectName(c); en != "" {
+					acc[en] = true
+					continue
+				}
 				if sel, ok := c.Fun.(*ast.SelectorExpr); ok {
 					root := sel.X
 					for {
@@ -720,6 +818,21 @@ func (e *env) assigned(stmts []ast.Stmt, acc map[string]bool) {
 				}
 			}
 		case *ast.IfStmt:
+			if c, ok := v.Cond.(*ast.CallExpr); ok {
+				if sel, ok := c.Fun.(*ast.SelectorExpr); ok {
+					root := sel.X
+					for {
+						if s2, ok := root.(*ast.SelectorExpr); ok {
+							root = s2.X
+							continue
+						}
+						break
+					}
+					if id, ok := root.(*ast.Ident); ok {
+						acc[id.Name] = true
+					}
+				}
+			}
 			e.assigned(v.Body.List, acc)
 			if v.Else != nil {
 				if b, ok := v.Else.(*ast.BlockStmt); ok {
@@ -839,6 +952,9 @@ func (e *env) block(stmts []ast.Stmt, fin func() string, ind string) string {
 		if !ok {
 			fail(w.fset, s, "unsupported expression statement")
 		}
+		if en := e.effectName(c); en != "" {
+			return "let " + en + " := true in\n" + ind + e.block(rest, fin, ind)
+		}
 		sel, ok := c.Fun.(*ast.SelectorExpr)
 		if !ok {
 			fail(w.fset, s, "unsupported call statement")
@@ -869,14 +985,35 @@ func (e *env) block(stmts []ast.Stmt, fin func() string, ind string) string {
 		}
 		var cond string
 		condPartial := false
-		if e.partial() {
+		prefix := ""
+		if c, ok := v.Cond.(*ast.CallExpr); ok && !e.partial() {
+			if sel, ok := c.Fun.(*ast.SelectorExpr); ok && e.rootIsVar(sel.X) {
+				rs, rt := e.expr(sel.X)
+				if rt.kind == "struct" || rt.kind == "u32" || rt.kind == "u64" {
+					if m, ok := w.methods[e.typeName(rt)+"."+sel.Sel.Name]; ok && m.ptrRecv {
+						if len(m.results) != 1 || m.results[0].kind != "bool" {
+							fail(w.fset, v.Cond, "condition calls a pointer method that does not return exactly one bool")
+						}
+						app, _ := e.apply(c, m, &rs)
+						e.tmp++
+						tmp := fmt.Sprintf("call%d_", e.tmp)
+						name, val := e.setField(sel.X, "(fst "+tmp+")")
+						prefix = "let " + tmp + " := " + app + " in\n" + ind + "let " + name + " := " + val + " in\n" + ind
+						cond = "(snd " + tmp + ")"
+					}
+				}
+			}
+		}
+		if cond != "" {
+			// condition already computed (with its side effect on the receiver)
+		} else if e.partial() {
 			c, t, p := e.exprOpt(v.Cond)
 			if t.kind != "bool" {
 				fail(w.fset, v.Cond, "non-bool condition")
 			}
 			cond, condPartial = c, p
 		}
-		if !condPartial {
+		if cond == "" || (e.partial() && !condPartial && prefix == "") {
 			c, t := e.expr(v.Cond)
 			if t.kind != "bool" {
 				fail(w.fset, v.Cond, "non-bool condition")
@@ -905,7 +1042,7 @@ func (e *env) block(stmts []ast.Stmt, fin func() string, ind string) string {
 			a := e.block(v.Body.List, fin, ind+"  ")
 			e.vars = copyVars(saved)
 			b := e.block(rest, fin, ind)
-			return mk(cond, a, b)
+			return prefix + mk(cond, a, b)
 		case thenRet && elseRet:
 			a := e.block(v.Body.List, fin, ind+"  ")
 			e.vars = copyVars(saved)
@@ -913,7 +1050,7 @@ func (e *env) block(stmts []ast.Stmt, fin func() string, ind string) string {
 			if len(rest) != 0 {
 				fail(w.fset, s, "unreachable statements after if/else that both return")
 			}
-			return mk(cond, a, b)
+			return prefix + mk(cond, a, b)
 		case !thenRet && !elseRet:
 			if condPartial {
 				fail(w.fset, s, "partial condition on a non-returning if")
@@ -929,7 +1066,7 @@ func (e *env) block(stmts []ast.Stmt, fin func() string, ind string) string {
 			}
 			sort.Strings(names)
 			if len(names) == 0 {
-				return e.block(rest, fin, ind)
+				return prefix + e.block(rest, fin, ind)
 			}
 			tup := func() string {
 				if len(names) == 1 {
@@ -945,7 +1082,7 @@ func (e *env) block(stmts []ast.Stmt, fin func() string, ind string) string {
 			if len(names) > 1 {
 				pat = "'(" + strings.Join(names, ", ") + ")"
 			}
-			return "let " + pat + " := (if " + cond + " then " + a + "\n" + ind + "  else " + b + ") in\n" + ind + e.block(rest, fin, ind)
+			return prefix + "let " + pat + " := (if " + cond + " then " + a + "\n" + ind + "  else " + b + ") in\n" + ind + e.block(rest, fin, ind)
 		default:
 			fail(w.fset, s, "if statement where exactly one branch returns and an else is present")
 		}
@@ -996,6 +1133,9 @@ func (w *world) emitFunc(u *unit, m *method, out *bytes.Buffer) {
 	for _, p := range fd.Type.Params.List {
 		t := w.typeOfExpr(p.Type)
 		for _, n := range p.Names {
+			if t.kind == "opaque" {
+				continue // only usable inside effect calls
+			}
 			e.vars[n.Name] = t
 			if t.kind == "string" && u.lenOnly[n.Name] {
 				e.lenOnly[n.Name] = true
@@ -1013,6 +1153,23 @@ func (w *world) emitFunc(u *unit, m *method, out *bytes.Buffer) {
 	for _, r := range m.results {
 		rts = append(rts, coqType(r))
 	}
+	// effect flags, in order of first appearance
+	if u.effects != nil {
+		seen := map[string]bool{}
+		ast.Inspect(fd.Body, func(n ast.Node) bool {
+			if c, ok := n.(*ast.CallExpr); ok {
+				if en := e.effectName(c); en != "" && !seen[en] {
+					seen[en] = true
+					e.effects = append(e.effects, en)
+				}
+			}
+			return true
+		})
+		for _, en := range e.effects {
+			e.vars[en] = tBool
+			rts = append(rts, "bool")
+		}
+	}
 	rt := "unit"
 	if len(rts) > 0 {
 		rt = strings.Join(rts, " * ")
@@ -1027,6 +1184,9 @@ func (w *world) emitFunc(u *unit, m *method, out *bytes.Buffer) {
 		return e.resultTuple(nil)
 	}
 	body := e.block(fd.Body.List, fin, "  ")
+	for i := len(e.effects) - 1; i >= 0; i-- {
+		body = "let " + e.effects[i] + " := false in\n  " + body
+	}
 	pos := w.fset.Position(fd.Pos())
 	rel := u.file
 	fmt.Fprintf(out, "(* %s:%d *)\nDefinition %s %s : %s :=\n  %s.\n\n",
@@ -1075,10 +1235,13 @@ func main() {
 		for _, s := range units[i].structs {
 			wanted[s] = true
 		}
+		w.lenient = units[i].lenient
 		w.fillStructs(files[i], wanted)
+		w.lenient = false
 	}
 	for i := range units {
 		u := &units[i]
+		w.lenient = u.lenient
 		all := false
 		want := map[string]bool{}
 		for _, f := range u.funcs {
